@@ -60,7 +60,7 @@ def classify(res):
     return out
 
 
-def evaluate(rng, tier, judge, n_quick=70, n_thorough=1200, runs=3, cli_share=0.15):
+def evaluate(rng, tier, judge, n_quick=110, n_thorough=1500, runs=3, cli_share=0.12):
     n = n_quick if tier == "quick" else n_thorough
     failures, hist, samples = [], collections.Counter(), []
     seen = set()
@@ -100,8 +100,6 @@ def evaluate(rng, tier, judge, n_quick=70, n_thorough=1200, runs=3, cli_share=0.
                 cls = classes[(k, "module-docstring-only")]
             elif k in classes:
                 cls = classes[k]
-            elif f["target"] == "*" or k is None:
-                cls = next((c for kk, c in classes.items() if c and not isinstance(kk, tuple)), None)
             else:
                 cls = None
             if cls in ABSORBS and f.get("kind") is not None and f["kind"] not in ABSORBS[cls]:
